@@ -1,6 +1,7 @@
 package main
 
 import (
+	"strings"
 	"fmt"
 	"math"
 
@@ -202,6 +203,15 @@ func c02Scenarios(tier string) []*Scenario {
 				return "", "", deliveredOutcome(x.Rec.Log)
 			},
 		})
+	}
+	// the gauge is created by one goroutine while another looks it up and makes the only update, a pass alongside:
+	// scenario N "gauge+lookup" of C09, judged here for the value the reporter is left with
+	for _, sc := range c09Scenarios(tier) {
+		if strings.Contains(sc.Name, "gauge+lookup") {
+			c := *sc
+			c.Property = "C02"
+			out = append(out, &c)
+		}
 	}
 	return out
 }
